@@ -471,6 +471,20 @@ def bind_numba_pyfunc():
     return done
 
 
+def fix_numba_builtins():
+    """with NUMBA_DISABLE_JIT the kernels run as plain Python, where the names `bool`/`int`/`float` imported from numba
+    are type objects numpy cannot use as dtypes: rebind them to the builtins (float runs of the twins in the workers)"""
+    import os
+    if os.environ.get("NUMBA_DISABLE_JIT") != "1":
+        return
+    for modname in ("pandapipes.pf.derivative_toolbox_numba", "pandapipes.pf.internals_toolbox",
+                    "pandapipes.pf.result_extraction"):
+        mod = importlib.import_module(modname)
+        for tn in ("bool", "int", "float"):
+            if tn in mod.__dict__ and mod.__dict__[tn] is not getattr(builtins, tn):
+                _set(modname, tn, getattr(builtins, tn))
+
+
 def uninstall():
     while _SAVED:
         mod, attr, val = _SAVED.pop()
